@@ -78,6 +78,7 @@ def walk_dialect(label):
 
 class C29(Check):
     id = "C29"
+    thorough_pinned = True  # full thorough enumeration observed quiet on the unchanged tree
     level = "exploration"
     rule = (
         "Finite part (pinned, independent of the seed, exhaustive): for every dialect of dialect_readout(): the dialect "
